@@ -24,6 +24,21 @@ def load_lock():
         return set()
 
 
+def family(name):
+    """Obligations that exist once per call site / per function belong to a family: the precondition `pre:n` of callee X at
+    every call site, a discipline rule R1..R6 in every function.  A NEW member of a family that was discharged everywhere on
+    the unchanged tree (a new call site, a new function touching a protected field) and is refuted now is a violation of
+    the same contract clause, although that exact name never existed before."""
+    import re
+    m = re.search(r"/call:([^#/]+)#\d+/(pre:.+)$", name)
+    if m:
+        return "call:%s/%s" % (m.group(1), m.group(2))
+    m = re.search(r"/(R\d(?:\[[^\]]*\])?:.+)$", name)
+    if m:
+        return m.group(1)
+    return None
+
+
 def build_registry(repo_root, contract_modules):
     from .contract import Registry
     from .source import Repo
@@ -124,10 +139,12 @@ def run_functions(ck, contract_modules, quals, timeout=20, hooks_mod=None, procs
     return results
 
 
-def report(ck, results, select=None, replayer=None, rename=None):
-    """map worker results onto ck obligations.  select(name)->bool filters obligations of this property."""
+def report(ck, results, select=None, replayer=None, rename=None, also_used=()):
+    """map worker results onto ck obligations.  select(name)->bool filters obligations of this property.
+    also_used: contracts applied by callers verified in ANOTHER run of the same check (their frame conditions matter too)."""
     lock = load_lock()
-    used = set()
+    lock_families = {f for f in (family(n) for n in lock) if f}
+    used = set(also_used)
     for res in results:
         used.update(res.get("contracts_applied", []))
     for res in results:
@@ -155,8 +172,10 @@ def report(ck, results, select=None, replayer=None, rename=None):
         for rec in res["obligations"]:
             name = rec["name"]
             if select and not select(name):
+                ck.extra.setdefault("obligations_left_to_other_properties", []).append(name)
                 continue
             if rec["kind"] == "frame" and res["qual"] not in used:
+                ck.extra.setdefault("frame_obligations_without_a_caller_in_this_run", []).append(name)
                 continue      # frame conditions only matter for contracts some caller in this run relies on
             full = ck.prop + "/" + name
             if rec["kind"] == "raises" and (ck.prop + "/" + summary_name) in lock:
@@ -185,7 +204,9 @@ def report(ck, results, select=None, replayer=None, rename=None):
             if known:
                 ck.fail(name, known[0]["key"], known[0]["what"], replay=payload, reproduced=reproduced)
                 ck.ob(name, "known-finding", backend=backend, secs=rec["secs"], clause=rec["clause"], queries=rec["paths"], detail={"model": model})
-            elif reproduced or full in lock:
+            elif reproduced or full in lock or family(full) in lock_families:
+                if not reproduced and full not in lock:
+                    what += "  [new member of the obligation family %r, every member of which was discharged on the unchanged tree]" % family(full)
                 ck.fail(name, "refuted", what, replay=payload, reproduced=reproduced)
                 ck.ob(name, "violated", backend=backend, secs=rec["secs"], clause=rec["clause"], queries=rec["paths"], detail={"model": model})
             else:
